@@ -222,6 +222,31 @@ def h_deal_forms(ctx: Any) -> None:
     ctx.cover('done')
 
 
+def h_hand_forms(ctx: Any) -> None:
+    """hole/board cards given to the hand types as text, tuple, list or one-shot iterator denote the same cards."""
+    import inspect
+    import pokerkit.hands as H
+    from pokerkit.utilities import Card
+    classes = [c for n, c in sorted(vars(H).items()) if inspect.isclass(c) and issubclass(c, H.Hand)
+               and hasattr(c, 'low') and hasattr(c, 'lookup')]
+    cls = classes[ctx.choice('cls', len(classes))]
+    samples = [('AsKs', '2c3dQsJsTs'), ('As2d3h4c', '5c6d7h8sKc'), ('Ac2d3h4s', ''), ('KsQd', 'KhQc2s'), ('Js', 'Qs'),
+               ('7c5d4h3s2c', '')]
+    hole_t, board_t = samples[ctx.choice('sample', len(samples))]
+    forms = [lambda t: t, lambda t: tuple(Card.parse(t)), lambda t: list(Card.parse(t)), lambda t: Card.parse(t),
+             lambda t: (c for c in tuple(Card.parse(t))), lambda t: filter(None, tuple(Card.parse(t)))]
+    fh = ctx.choice('hole_form', len(forms))
+    fb = ctx.choice('board_form', len(forms))
+    ref = cls.from_game_or_none(hole_t, board_t)
+    got = cls.from_game_or_none(forms[fh](hole_t), forms[fb](board_t))
+    ctx.check((ref is None) == (got is None), 'forms-differ', lambda: f'{cls.__name__} {hole_t} {board_t}: {ref} vs {got}')
+    if ref is not None:
+        ctx.check(ref == got and sorted(map(repr, ref.cards)) == sorted(map(repr, got.cards)), 'forms-differ',
+                  lambda: f'{cls.__name__} {hole_t} {board_t}: {ref!r} vs {got!r}')
+        ctx.cover('hand')
+    ctx.cover('done')
+
+
 def h_rawtext(ctx: Any, length: int) -> None:
     """arbitrary raw text: rejected with ValueError or equal to the card codes it spells."""
     from pokerkit.utilities import Card, Rank, Suit
@@ -330,6 +355,7 @@ def jobs(tier: str, seed: int) -> list[dict]:
     for L in (0, 1, 2):
         out.append(dict(name=f'rawtext/len{L}', fn='h_rawtext', params=dict(length=L), budget_s=B,
                         must_cover=['rejected'] if L == 1 else ['parsed']))
+    out.append(dict(name='hand-forms', fn='h_hand_forms', traced=False, params={}, budget_s=B, must_cover=['done', 'hand']))
     out.append(dict(name='deal-forms', fn='h_deal_forms', traced=False, params={}, budget_s=B, must_cover=['done']))
     out.append(dict(name='divmod', fn='h_divmod', params={}, budget_s=B, must_cover=['done']))
     out.append(dict(name='rake/smt', kind='native', fn='smt_rake', params={}, budget_s=B))
